@@ -430,6 +430,13 @@ def _one_read_loop(lp, is_read, yields, leaves):
         if isinstance(lp.test, ast.NamedExpr) and is_read(lp.test.value) and len(lp.body) == 1 and yields(lp.body[0], lp.test.target.id):
             return ("ok", "while chunk := read(size): yield chunk")
         body = lp.body
+        # a loop that runs WHILE A BYTE COUNTER IS POSITIVE (`while remaining > 0:` with remaining -= len(chunk)): its end is decided by the
+        # announced length, not by the empty read - without Content-Length (chunked transfer) the counter starts at 0 / None and the body is
+        # read as empty; with a length larger than the data it never ends
+        if isinstance(lp.test, ast.Compare) and len(lp.test.ops) == 1 and isinstance(lp.test.ops[0], (ast.Gt, ast.GtE, ast.NotEq)) and isinstance(lp.test.left, ast.Name) \
+                and any(isinstance(n, ast.AugAssign) and isinstance(n.op, ast.Sub) and isinstance(n.target, ast.Name) and n.target.id == lp.test.left.id for n in ast.walk(lp)):
+            return ("violation", f"the body is read while a byte counter is positive (`while {ast.unparse(lp.test)}`): the end of the body is taken from the announced length instead of the empty read - "
+                    "a request without Content-Length (chunked transfer, de-chunked by the server) is read as an EMPTY body", lp)
         if not (body and isinstance(body[0], ast.Assign) and len(body[0].targets) == 1 and isinstance(body[0].targets[0], ast.Name) and is_read(body[0].value)):
             return ("unknown", "the loop does not start with <chunk> = <input>.read(<size parameter>)")
         ck = body[0].targets[0].id
